@@ -169,8 +169,9 @@ func harnesses(r *fw.Run) []fw.HarnessSpec {
 		execMode := c.ChooseFree(4)
 		domain := domains[c.Choose(len(domains))]
 		tsOff := []int64{0, -life, -life + 1, -life - 1, -10}[c.Choose(5)]
-		variation := c.ChooseFree(24)
-		key := fmt.Sprintf("proof/%d/%d/%d/%q/%d/%d", ver, ki, execMode, domain, tsOff, variation)
+		variation := c.ChooseFree(25)
+		warm := c.ChooseFree(3) // the server instance has handled an earlier proof: 0 none, 1 a valid proof of another wallet, 2 a valid proof of this wallet
+		key := fmt.Sprintf("proof/%d/%d/%d/%q/%d/%d/%d", ver, ki, execMode, domain, tsOff, variation, warm)
 		c.Case([]byte(key), true)
 		c.Sample(map[string]any{"version": ver.ToString(), "key": ki, "executor": []string{"key", "other key", "error", "malformed stack"}[execMode], "domain_len": len(domain), "ts_offset": tsOff, "variation": variation})
 		c.Label("%s", key)
@@ -327,6 +328,24 @@ func harnesses(r *fw.Run) []fw.HarnessSpec {
 			case 23:
 				p.Address = addr.ToHuman(true, false)
 				reject("address not in raw form")
+			case 24:
+				// the holder of another wallet claims this address: her own state-init, signed with her own key
+				p.Proof.StateInit = other.b64
+				p.Proof.Signature = refSign(other.key, addr.Workchain, addr.Address, domain, ts, payload)
+				if execMode == 1 {
+					return // the scripted chain says the account's key is another key: not this case
+				}
+				reject("state-init and signature of another wallet for this address")
+			}
+			// earlier traffic on the same server instance must not change the verdict
+			if warm > 0 {
+				who := other
+				if warm == 2 {
+					who = wi
+				}
+				if wp, err := tonconnect.CreateSignedProof(payload, who.w.GetAddress(), who.key, who.init, tonconnect.ProofOptions{Timestamp: time.Unix(now.Unix(), 0), Domain: domain}); err == nil {
+					_, _, _ = srv.CheckProof(context.Background(), wp, srv.CheckPayload, tonconnect.StaticDomain(domain))
+				}
 			}
 			ok2, gotKey, err := srv.CheckProof(context.Background(), &p, srv.CheckPayload, checkDomain)
 			if expectOK {
